@@ -406,11 +406,23 @@ def c12_v1(ctx, R):
     for o in outs:
         v = err_variant(o)
         if v in ROLE:
-            # the decisive (last) validation atom must be about the token of that role
-            val = [a for a in o['pc'] if is_validation(a) and token_ordinals(a)]
-            last = val[-1] if val else None
-            ok = last is not None and token_ordinals(last) == {ROLE[v]}
-            R.inst('C12.V1', 'blame/%s<-token%d' % (v, ROLE[v]), ok, expected='decisive check on token %d' % ROLE[v], found=T.short(last) if last else 'none', entry=fp)
+            # semantic blame: on this path the blamed field is invalid and every field before it (in line order) is valid - however the
+            # parser orders its checks (lazily field by field, or all fields eagerly and the first failure reported)
+            k = ROLE[v]
+            srcs = split_sources([o])
+            var = 'Tcp4' if T.eq(('bytes', tables.V1_TCP4), ('call', 'tok', (next(iter(srcs)), I(1)))) in o['pc'] else 'Tcp6' if srcs else None
+            if len(srcs) != 1:
+                R.inst('C12.V1', 'blame/%s<-token%d' % (v, k), False, expected='one tokeniser on the path', found=str(len(srcs)), entry=fp, kind='unprovable')
+                continue
+            A = accept_conditions(next(iter(srcs)), m.text(), var)
+            fieldc = {2: ['source-address-parses'], 3: ['destination-address-parses'],
+                      4: ['source-port-no-leading-zero', 'source-port-no-sign', 'source-port-parses'],
+                      5: ['destination-port-no-leading-zero', 'destination-port-no-sign', 'destination-port-parses']}
+            blamed_invalid = not solver.sat(list(o['pc']) + [A[c] for c in fieldc[k]])
+            earlier_valid = all(solver.entails(o['pc'], A[c]) for j in range(2, k) for c in fieldc[j])
+            ok = blamed_invalid and earlier_valid
+            R.inst('C12.V1', 'blame/%s<-token%d' % (v, k), ok, expected='field %d invalid and fields 2..%d valid on this path' % (k, k - 1),
+                   found='blamed field invalid: %s; earlier fields valid: %s; under %s' % (blamed_invalid, earlier_valid, pc_text(o['pc'][-6:], 6)), entry=fp)
             n += 1
         elif v == 'InvalidPrefix':
             val = [a for a in o['pc'] if is_validation(a) and token_ordinals(a)]
